@@ -233,7 +233,17 @@ func safeCall(f func()) (panicked bool) {
 	return false
 }
 
+// hitsCoq: the collector calls as a multiset (sorted: their order follows the scan, which the checks do not fix)
 func hitsCoq(h [][3]int64) string {
+	h = append([][3]int64{}, h...)
+	sort.Slice(h, func(i, j int) bool {
+		for k := 0; k < 3; k++ {
+			if h[i][k] != h[j][k] {
+				return h[i][k] < h[j][k]
+			}
+		}
+		return false
+	})
 	s := make([]string, len(h))
 	for i, x := range h {
 		s[i] = fmt.Sprintf("(%s, (%s, %s))", zl(x[0]), zl(x[1]), zl(x[2]))
